@@ -47,6 +47,10 @@ def base_scenarios():
         out.append(('first_reg_vs_deliver/p%d' % prev, [(s1, prev)], [], [(2, s1, 5), (1, s1, 0)]))
     out.append(('first_reg_2sig_vs_deliver', [(s1, 3), (s2, 2)], [], [(2, s1, 5), (2, s2, 6), (1, s1, 0)]))
     out.append(('second_reg_vs_deliver', [(s1, 2)], [(2, s1, 4)], [(2, s1, 5), (1, s1, 0)]))
+    # the signal's only action was removed earlier (the library stays its handler), another signal is taken over first,
+    # then a new registration of the first signal: its pre-existing handler is still chained, once, on every delivery
+    for prev in (2, 3):
+        out.append(('second_reg_after_empty/p%d' % prev, [(s1, prev), (s2, 0)], [(2, s1, 4), (3, 0, 0)], [(2, s2, 6), (2, s1, 5), (1, s1, 0)]))
     out.append(('reg_unreg_deliver', [(s1, 0)], [(2, s1, 1), (2, s1, 2)], [(2, s1, 3), (3, 1, 0), (1, s1, 0)]))
     out.append(('three_mutators', [(s1, 0), (s2, 0)], [(2, s1, 1)], [(2, s2, 2), (3, 0, 0), (2, s1, 3), (1, s1, 0)]))
     # three calls that only write the data half-lock (no first registration: the delivery's fallback guard would hold those up)
